@@ -210,7 +210,17 @@ func (k *KVStore) PutRaw(hkey uint64, value []byte) error {
 		break
 	}
 
+	k.deleteFromOlderTables(hkey)
 	return nil
+}
+
+// deleteFromOlderTables removes the superseded versions of a key from the previously
+// created tables. The most recent version always lives in the last table.
+func (k *KVStore) deleteFromOlderTables(hkey uint64) {
+	for i := len(k.tables) - 2; i >= 0; i-- {
+		// table.ErrHKeyNotFound is the only possible error here.
+		_ = k.tables[i].Delete(hkey)
+	}
 }
 
 // Put sets the value for the given key. It overwrites any previous value for that key
@@ -245,6 +255,7 @@ func (k *KVStore) Put(hkey uint64, value storage.Entry) error {
 		break
 	}
 
+	k.deleteFromOlderTables(hkey)
 	return nil
 }
 
